@@ -297,4 +297,73 @@ def run(ctx, prog):
                      'reads manifest.latest_snapshot: %s; compares with parent.snapshot_file: %s; snapshot entries: %d; metadata.snapshot_file = %s' % (reads_latest, reads_parent_snap, len(snap_push), rec))
         else:
             ctx.inst('C12.R5', f.short, 'ships the snapshot named by the archived MANIFEST', reads_latest and bool(snap_push), 'snapshot entries: %d' % len(snap_push))
+    # ------------------------------------------------------------------ R6 which log segments an incremental ships
+    ctx.rule('C12.R6', 'incremental segment selection: the filter over the on-disk log segments keeps every segment with id > parent.max_wal_file_id, keeps the '
+                       'parent\'s highest segment exactly when it was modified since the parent (it was the active one and kept growing — whether or not it '
+                       'still is the newest), keeps unparsable names when modified, and rejects only id < parent max or (id = parent max ∧ unmodified); '
+                       '"modified" means mtime ≥ parent timestamp')
+    inc = ctx.body('C12.R6', 'BackupManager::create_incremental_backup')
+    fam = prog.family(inc) if inc is not None else []
+    sel = [b_ for b_ in fam if b_.kind == 'Closure' and b_.calls_to('backup::parse_wal_file_id') and b_.locals[0] == 'bool']
+    if len(sel) != 1:
+        ctx.missing('C12.R6', 'the segment filter closure of create_incremental_backup (calls parse_wal_file_id, returns bool): found %d' % len(sel))
+    else:
+        fc = sel[0]
+        fvv = flow.Origin(fc, stop_at_vars=True)
+        t_blocks = set()
+        f_blocks = set()
+        m_blocks = set()
+        for i_, blk in enumerate(fc.blocks):
+            for st in blk['s']:
+                rv = st.get('rv')
+                if rv and st['pl']['l'] == 0 and not st['pl'].get('p') and rv['k'] == 'use' and rv['a'].get('k') == 'c':
+                    (t_blocks if rv['a'].get('int') == 1 else f_blocks).add(i_)
+            t_ = blk['t']
+            if t_['k'] == 'call' and t_['dest']['l'] == 0 and not t_['dest'].get('p'):
+                c_ = fc.call_at(i_)
+                args_ = [flow.render(fvv.of_operand(a)) for a in c_.args]
+                if args_ and args_[0] == 'cap:modified_since_parent' and 'var:path' in args_[-1]:
+                    m_blocks.add(i_)
+                else:
+                    f_blocks.add(i_)   # any other computed answer counts as "may reject"
+        atoms = [pathsens.Atom('gt', r'^cmp\[\+ cap:parent_max - var:file_id <= -1\]$|^cmp\[\+ var:file_id - cap:parent_max >= 1\]$'),
+                 pathsens.Atom('eq', r'^cmp\[\+ cap:parent_max - var:file_id == 0\]$|^cmp\[\+ var:file_id - cap:parent_max == 0\]$'),
+                 pathsens.VariantAtom('parsed', r'parse_wal_file_id\(var:name\)', 'Some')]
+        terms, seen = _explore(fc, atoms, mark_blocks={'T': t_blocks, 'F': f_blocks, 'M': m_blocks})
+        bad = []
+        for bb_, via_err, a_, path_ in terms:
+            ans = [k_ for k_ in ('T', 'F', 'M') if a_.get(k_)]
+            if len(ans) != 1:
+                bad.append('a path returns through %s' % (ans or 'no recognised answer'))
+                continue
+            ans = ans[0]
+            if a_.get('parsed') is False:
+                if ans != 'M':
+                    bad.append('unparsable name answered %s' % ans)
+            elif a_.get('gt') is True:
+                if ans != 'T':
+                    bad.append('id > parent max answered %s' % ans)
+            elif a_.get('gt') is False and a_.get('eq') is True:
+                if ans != 'M':
+                    bad.append('id = parent max answered %s instead of modified_since_parent(path)' % ans)
+            elif a_.get('gt') is False and a_.get('eq') is False:
+                if ans != 'F':
+                    bad.append('id < parent max answered %s' % ans)
+            else:
+                bad.append('a path decides %s without comparing the id with the parent\'s highest segment (gt=%s, eq=%s)' % (ans, a_.get('gt'), a_.get('eq')))
+        ctx.inst('C12.R6', inc.short + ' [segment filter]', 'decision table of the segment filter', bool(terms) and not bad and all(k_ in seen for k_ in ('gt', 'eq', 'parsed')),
+                 '%d paths; %s' % (len(terms), '; '.join(sorted(set(bad)))[:300] if bad else 'gt→keep, eq→modified(path), unparsable→modified(path), lower→drop'))
+        # parent_max is the parent's recorded highest segment id
+        pv = flow.Origin(inc)
+        pm = inc.var_local('parent_max')
+        pmo = flow.render(pv.of_local(pm[0])) if pm else ''
+        ctx.inst('C12.R6', inc.short, 'parent_max = parent_metadata.max_wal_file_id', bool(re.search(r'BackupMetadata\.max_wal_file_id@Some→Some\.0$', pmo)), 'parent_max = %s' % pmo[-80:])
+        # the filtered iterator runs over every on-disk segment and feeds the archive list
+        flt = [c for c in inc.calls if c.callee and c.is_('re:Iterator::filter$') and any(g == fc.id for g in c.gc)]
+        src = flow.render(pv.of_operand(flt[0].args[0])) if flt else ''
+        ctx.inst('C12.R6', inc.short, 'the filter runs over list_wal_segments_in_dir(data_dir)', bool(flt) and 'backup::list_wal_segments_in_dir(' in src, 'source: %s' % src[:100])
+        # "modified" = mtime >= parent timestamp (same-second writes included)
+        mods = [b_ for b_ in fam if b_.kind == 'Closure' and b_.locals[0] == 'bool' and b_ is not fc and 'Duration::as_secs(' in flow.render(flow.Origin(b_).of_local(0))]
+        r_ = flow.render(flow.Origin(mods[0]).of_local(0)) if len(mods) == 1 else ''
+        ctx.inst('C12.R6', inc.short, 'modified_since_parent compares mtime ≥ parent timestamp', bool(re.match(r'^\(Duration::as_secs\(arg:\w+\) Ge cap:parent_metadata\b[^)]*\)$', r_)), 'innermost test: %s' % r_[:120])
     ctx.stat('functions_analysed', len(set(i['key'].split(' | ')[1] for i in ctx.instances)))
